@@ -104,10 +104,15 @@ func buildWrec(w *wrec) error {
 	case "g":
 		rec.WarcHeader().Set("Content-Length", "99999999")
 		w.lying = true
+	case "w":
+		// a record that already carries a WARC-Warcinfo-ID (copied from another file, or written a second time)
+		rec.WarcHeader().Set("WARC-Warcinfo-ID", foreignInfoId)
 	}
 	w.rec = rec
 	return nil
 }
+
+const foreignInfoId = "<urn:uuid:77777777-0000-4000-8000-000000000000>"
 
 type cbRec struct {
 	name string
@@ -328,6 +333,9 @@ func kWriter(args []string) (string, string) {
 			return "-"
 		}
 		id := m.get("WARC-Warcinfo-ID")
+		if id == foreignInfoId {
+			return "-" // the caller's own value, untouched by the writer
+		}
 		for k, v := range infoIdOf {
 			if v == id {
 				return strconv.Itoa(k)
@@ -408,7 +416,7 @@ func kWriter(args []string) (string, string) {
 					offs = append(offs, a.resp.FileOffset)
 					toks = append(toks, a.w.tok)
 					s := "-"
-					if a.w.rec.WarcHeader().Has("WARC-Warcinfo-ID") {
+					if a.w.rec.WarcHeader().Has("WARC-Warcinfo-ID") && a.w.rec.WarcHeader().Get("WARC-Warcinfo-ID") != foreignInfoId {
 						s = "?"
 						id := a.w.rec.WarcHeader().Get("WARC-Warcinfo-ID")
 						for k, vv := range infoIdOf {
@@ -531,7 +539,7 @@ func kWriter(args []string) (string, string) {
 					if m.get("WARC-Warcinfo-ID") != infoIdOf[v.idx] || infoIdOf[v.idx] == "" {
 						setViol("writer-warcinfo-id", fmt.Sprintf("file=%d tok=%d carries %s, file's warcinfo is %s", v.idx, tokOfId(m.get("WARC-Record-ID")), m.get("WARC-Warcinfo-ID"), infoIdOf[v.idx]))
 					}
-				} else if m.has("WARC-Warcinfo-ID") {
+				} else if m.has("WARC-Warcinfo-ID") && m.get("WARC-Warcinfo-ID") != foreignInfoId {
 					setViol("writer-warcinfo-id", fmt.Sprintf("file=%d tok=%d stamped without generator", v.idx, tokOfId(m.get("WARC-Record-ID"))))
 				}
 			}
@@ -737,6 +745,9 @@ func genWriter(r *rng, n int, tier string, emit func(string, ...string)) {
 					size = r.rangeInt(0, 900)
 				}
 				decl := "t"
+				if r.chance(1, 8) {
+					decl = "w"
+				}
 				if lying && r.chance(1, 3) {
 					decl = pick(r, []string{"e", "b", "z", "g"})
 				}
